@@ -760,6 +760,20 @@ def symbolize(so, offsets):
     return {o: _SYM_CACHE[(so, o)] for o in offsets}
 
 
+def presymbolize(texts):
+    """One llvm-symbolizer run per shared object for every frame of every report (fills the cache)."""
+    want = {}
+    for t in texts:
+        for fm in _FRAME.finditer(t):
+            want.setdefault(fm.group(3), set()).add(fm.group(4))
+    for so, offs in want.items():
+        if os.path.exists(so):
+            try:
+                symbolize(so, sorted(offs))
+            except Exception:
+                pass
+
+
 _FRAME = re.compile(r"#(\d+) 0x[0-9a-f]+\s+(?:in (\S+) )?\(?(/[^+)]+)\+(0x[0-9a-f]+)\)")
 
 
@@ -1073,6 +1087,7 @@ def run_shard(params):
             futs = {impl: ex.submit(timed, impl) for impl in ("C", "Py")}
             out = {impl: f.result() for impl, f in futs.items()}
         t_judge = time.time()
+        presymbolize([r.get("asan", "") for d, _e in out.values() if d for r in d["results"].values() if r.get("asan")])
         res = {}
         for impl, (data, err) in out.items():
             if err:
